@@ -272,7 +272,8 @@ def run_shard(ctx):
     structural = []
     f1 = gen.simple_form([("text", "q1", {"label": "Q", "save_to": "p"})])
     structural.append(("saveto-without-entities-sheet", f1))
-    for col in ("bogus_column", "name", "Name", "type", "parameters", "parent", "extra_data", "children", "repeat", "save_to", "bind::x", "relevant", "calculation"):
+    for col in ("bogus_column", "name", "Name", "type", "parameters", "parent", "extra_data", "children", "repeat", "save_to", "bind::x", "relevant", "calculation",
+                "label::en", "label::English (en)", "entity_id::x", "create_if::a", "list_name::en"):
         f2, _ = build((0, 0, 0, 1), "literal", "none", "trees")
         f2.entities[col] = "x"
         structural.append((f"unknown-entities-column:{col}", f2))
@@ -307,6 +308,33 @@ def run_shard(ctx):
             ctx.viol(f"accepted-but-must-reject:{name}", "converted", common.witness(form, structural=name))
         elif not o.exc_is_pyxform:
             ctx.viol(f"internal-exception:{o.exc_type}:{name}", o.brief(), common.witness(form, structural=name))
+    # save_to on rows that are neither ordinary questions nor groups: the audit row (moved to meta) - without an entities sheet it must be refused like any other
+    n += 1
+    if ctx.mine(n):
+        f6 = gen.simple_form([("text", "q1", {"label": "Q"}), ("audit", "audit", {"save_to": "p_audit"})])
+        o = drive.convert_form(f6)
+        ctx.ctr("rejections_judged")
+        ctx.case(sig="saveto-on-audit-without-entities-sheet")
+        if o.ok:
+            ctx.viol("accepted-but-must-reject:saveto-without-entities-sheet:audit-row", "save_to on the audit row without an entities sheet was converted "
+                     f"(entities:saveto in output: {'entities:saveto' in o.xform})", common.witness(f6))
+    # selects whose LIST is called like a container: they are questions, save_to is legal on them
+    for ln in ("group_list", "my_repeat_codes", "loop1", "begin", "groups"):
+        n += 1
+        if not ctx.mine(n):
+            continue
+        f7 = gen.simple_form([("select_one " + ln, "s1", {"label": "S", "save_to": "p1"}), ("text", "grouping", {"label": "T", "save_to": "p2"})],
+                             choices={ln: [{"name": "a", "label": "A"}]})
+        f7.entities = {"list_name": "trees", "label": "concat('L', 'x')"}
+        o = drive.convert_form(f7)
+        ctx.ctr("accepted_compared")
+        ctx.case(sig=f"saveto-on-select-with-list-named|{ln}")
+        if not o.ok:
+            ctx.viol("rejected-but-valid:saveto-on-select-whose-list-name-contains-group-or-repeat", f"select_one {ln} with save_to: {o.brief()}", common.witness(f7))
+        else:
+            vals = sorted(b.get(xf.q(ENT, "saveto")) for b in xf.Parsed(o.xform).binds() if b.get(xf.q(ENT, "saveto")) is not None)
+            if vals != ["p1", "p2"]:
+                ctx.viol("saveto:value", f"saveto values {vals}, expected ['p1', 'p2']", common.witness(f7))
     # a question that happens to be called like the generated declaration ('entity') is an ordinary question and may be referenced
     for qname, mode in itertools.product(("entity", "Entity", "label", "dataset"), ("create", "update")):
         n += 1
